@@ -598,6 +598,7 @@ impl Session {
             "dqe" => crate::valw::dqe(self, cmd),
             "vard" => crate::valw::vard(self, cmd),
             "regwalk" => crate::c19r::regwalk(self, cmd),
+            "c08_poison" => crate::c08w::poison(self, cmd),
             "c08_sweep" => crate::c08w::sweep(self, cmd),
             "c17_names" => {
                 let fts: Vec<String> = serde_json::from_value(cmd["fn_templates"].clone()).unwrap_or_default();
